@@ -727,8 +727,27 @@ func TestC18(t *testing.T) {
 	for _, s := range c18TXTMutations() {
 		listed = append(listed, c18Case{16, s})
 	}
-	for _, typ := range []int64{2, 6, 15, 17, 27, 29, 255, 256, 1 << 40} {
-		for _, s := range []string{"x", "1.2.3.4", "a.com", "2003::1", ""} {
+	// cross-type: every value of every type's corpus under every OTHER supported
+	// type (the type passed decides the grammar, not the look of the data), and
+	// a selection under numeric types outside the supported set
+	soaLike := []string{"ns.example.com hostmaster.example.com 1 3600 600 86400 3600", "add.com a@b.c 1 2 3 4 5", "a@b.c", "0 1 2 3 4",
+		"ns1.com. admin.com. 2024010101 7200 3600 1209600 3600", "1 2 3 4", "com", "add.com"}
+	corpus := map[int64][]string{1: c18IPv4Mutations(), 28: c18IPv6Mutations(), 5: names, 16: c18TXTMutations(), 6: soaLike}
+	corpus[1] = append(corpus[1], "8.8.4.4", "1.2.3.4", "223.255.255.254", "+1.2.3.4")
+	corpus[28] = append(corpus[28], "2003::2", "2a00:1450:4001:81b::200e", "2001:8000::1", "2003:1:2:3:4:5:6::", "fe80::1", "2001:db8::1")
+	supported := []int64{1, 5, 16, 28}
+	for _, own := range []int64{1, 28, 5, 16, 6} {
+		for _, s := range corpus[own] {
+			for _, typ := range supported {
+				if typ != own {
+					listed = append(listed, c18Case{typ, s})
+				}
+			}
+		}
+	}
+	unsupported := []int64{2, 3, 4, 6, 7, 12, 15, 17, 27, 29, 33, 99, 127, 128, 255, 256, 257, 65535, 65536, 1 << 40}
+	for _, typ := range unsupported {
+		for _, s := range []string{"x", "", "1.2.3.4", "8.8.4.4", "a.com", "2003::1", "2003:1:2:3:4:5:6::", "text", soaLike[0], strings.Repeat("x", 255), strings.Repeat("x", 256)} {
 			listed = append(listed, c18Case{typ, s})
 		}
 	}
@@ -737,8 +756,12 @@ func TestC18(t *testing.T) {
 	if thorough {
 		nRand = 25000
 	}
+	crossRng := Rng(1818)
 	for _, c := range c18Random(Rng(18), nRand) {
 		listed = append(listed, c)
+		if other := supported[crossRng.Intn(len(supported))]; other != c.typ {
+			listed = append(listed, c18Case{other, c.s})
+		}
 		if c.typ == 0 && strings.Count(c.s, ".") == 0 {
 			listed = append(listed, c18Case{c18RegisterTLD, c.s}, c18Case{c18Register, c.s + ".com"}, c18Case{c18IsAvailable, c.s + ".com"})
 		}
@@ -760,6 +783,22 @@ func TestC18(t *testing.T) {
 		observed = append(observed, c18Seen{c.typ, []byte(c.s), evalOne(c.typ, []byte(c.s), i < nMut)})
 	}
 	st.Histories = len(seen)
+	// record types 0 and below are the Coq codes of the name entry points, so
+	// they are judged here: no data is well-formed for an unsupported type
+	for _, typ := range []int64{0, -1, -2, -28, -(1 << 40)} {
+		for _, d := range []string{"x", "", "8.8.4.4", "2003::2", "a.com", "text"} {
+			b := n.setRecord(typ, []byte(d))
+			a := c18Obs{halt: n.try(n.owner.ScriptHash(), "addRecord", "add.com", typ, []byte(d)) == ""}
+			st.OpHistogram["addRecord"]++
+			st.OpHistogram["setRecord"]++
+			st.Evaluations += 2
+			st.OutcomeHistogram["other-type/"+map[bool]string{true: "HALT", false: "FAULT"}[a.halt]]++
+			if a.halt || b.halt {
+				st.AddViolation(fmt.Sprintf("record type %d is not supported, yet addRecord %s and setRecord %s for data %q", typ, hf[a.halt], hf[b.halt], d),
+					map[string]any{"type": typ, "data": d})
+			}
+		}
+	}
 
 	// ---- 2. exhaustive families, enumerated on both sides ----
 	nameAlpha := []string{"a", "z", "0", "9", "-", ".", "A", "_", "+", " "}
